@@ -31,7 +31,7 @@ import (
 	"strings"
 )
 
-const modPath = "github.com/lesismal/nbio"
+var modPath = "github.com/lesismal/nbio"
 
 var swap = map[string]string{
 	"sync":        "verif/sim/shim/sync",
@@ -49,6 +49,8 @@ var (
 	pkgList = flag.String("pkgs", ".,logging,mempool,taskpool,timer,lmux,nbhttp,nbhttp/websocket,extension/tls", "package directories to transform")
 	verif   = flag.String("verif", "/verif", "path of the verif module (for the generated go.mod)")
 	noSwap  = flag.String("noswap", "", "comma separated std packages that are NOT swapped")
+	modFlag = flag.String("mod", "", "module path of the tree (default github.com/lesismal/nbio); other modules keep their go.mod")
+	siteBase = flag.Int("sitebase", 0, "first yield site number (keeps site ids of several trees apart)")
 )
 
 func fatal(format string, a ...interface{}) {
@@ -639,6 +641,9 @@ func main() {
 	for _, n := range strings.Split(*noSwap, ",") {
 		delete(swap, n)
 	}
+	if *modFlag != "" {
+		modPath = *modFlag
+	}
 	fset := token.NewFileSet()
 	l := &loader{fset: fset, pkgs: map[string]*pkgInfo{}}
 	l.std = importer.ForCompiler(fset, "source", nil).(types.ImporterFrom)
@@ -663,7 +668,7 @@ func main() {
 		paths = append(paths, p)
 	}
 	sort.Strings(paths)
-	site := 0
+	site := *siteBase
 	nfiles := 0
 	for _, pp := range paths {
 		p := l.pkgs[pp]
@@ -686,9 +691,11 @@ func main() {
 			nfiles++
 		}
 	}
-	gomod := fmt.Sprintf("module %s\n\ngo 1.26\n\nrequire (\n\tgithub.com/lesismal/llib v1.2.4\n\tverif v0.0.0\n)\n\nreplace verif => %s\n", modPath, *verif)
-	if err := os.WriteFile(filepath.Join(*out, "go.mod"), []byte(gomod), 0o644); err != nil {
-		fatal("%v", err)
+	if *modFlag == "" {
+		gomod := fmt.Sprintf("module %s\n\ngo 1.26\n\nrequire (\n\tgithub.com/lesismal/llib v1.2.4\n\tverif v0.0.0\n)\n\nreplace verif => %s\n", modPath, *verif)
+		if err := os.WriteFile(filepath.Join(*out, "go.mod"), []byte(gomod), 0o644); err != nil {
+			fatal("%v", err)
+		}
 	}
 	if len(l.errs) > 0 {
 		// type errors do not stop the rewrite (the compiler is the judge) but are shown
